@@ -267,6 +267,10 @@ func (rn *c16run) exec(ops []string, fresh bool) (string, string) {
 }
 
 func c16Worker(w *W) {
+	if w.Spec.Kind == "parked" {
+		c16Parked(w)
+		return
+	}
 	registerMonitorPlugins()
 	rn := &c16run{w: w, sink: &chunkSink{}}
 	log.Stdout = rn.sink
@@ -405,6 +409,9 @@ func init() {
 				s.Flavour = "race"
 				specs = append(specs, s)
 			}
+			pk := d.NewSpec("parked", "parked", 400, 16)
+			pk.N = d.Pick(6, 40)
+			specs = append(specs, pk)
 			// fresh processes
 			FL := int(d.Pick(2, 3))
 			var seqs [][]string
